@@ -74,6 +74,17 @@ impl core::ops::Add<Duration> for Duration {
     #[verifier::external_body]
     fn add(self, rhs: Duration) -> Duration { unimplemented!() }
 }
+// `Duration - Duration` panics when the result would be negative (std): a precondition
+impl vstd::std_specs::ops::SubSpecImpl<Duration> for Duration {
+    open spec fn obeys_sub_spec() -> bool { true }
+    open spec fn sub_req(self, rhs: Duration) -> bool { self.ns@ >= rhs.ns@ }
+    open spec fn sub_spec(self, rhs: Duration) -> Duration { dur(self.ns@ as int - rhs.ns@ as int) }
+}
+impl core::ops::Sub<Duration> for Duration {
+    type Output = Duration;
+    #[verifier::external_body]
+    fn sub(self, rhs: Duration) -> Duration { unimplemented!() }
+}
 impl vstd::std_specs::ops::MulSpecImpl<u32> for Duration {
     open spec fn obeys_mul_spec() -> bool { true }
     open spec fn mul_req(self, rhs: u32) -> bool { true }
